@@ -11,7 +11,7 @@ import time
 
 VERIF = os.path.dirname(os.path.dirname(os.path.abspath(__file__)))
 REPO = "/repo"
-LEAN_DIR = os.path.join(VERIF, "lean")
+LEAN_DIR = os.environ.get("VERIF_LEAN_DIR_OVERRIDE") or os.path.join(VERIF, "lean")   # override: development only (trying a model change in a scratch copy)
 HARNESS_DIR = os.path.join(VERIF, "harness")
 TARGET_DIR = os.path.join(HARNESS_DIR, "target")
 WORK = os.path.join(VERIF, ".work")
